@@ -373,3 +373,20 @@ def reaches(paths, target, ev, env):
         if ok:
             return True
     return False
+
+
+def check_names_bound(ctx, module_names):
+    """every global name the functions of these modules read is bound (no latent NameError)"""
+    from .c19 import unresolved_names
+    for mn in module_names:
+        m = ctx.prog.module(mn)
+        bad = unresolved_names(m)
+        byfn = {}
+        for q, n, ln in bad:
+            byfn.setdefault(q, []).append((n, ln))
+        for q, lst in sorted(byfn.items()):
+            names = sorted({n for n, ln in lst})
+            ctx.bad("%s.%s:unbound[%s]" % (mn, q, ",".join(names)), "%s:%d" % (m.relpath, lst[0][1]),
+                    "reads %s, which is never bound (not a parameter, local, module name, import or builtin): NameError as soon as the path executes" % names)
+        if not bad:
+            ctx.ok("%s:names-bound" % mn, m.relpath + ":1")
